@@ -1,16 +1,16 @@
 SPEC = dict(
     id="C15",
-    level_text=("Tree at 64dff5c. Lean 4 theorems over a byte-level model (List UInt8) of MaskStringLiterals / "
+    level_text=("Tree at 73763cd. Lean 4 theorems over a byte-level model (List UInt8) of MaskStringLiterals / "
                 "UnmaskStringLiterals (single-pass strings.NewReplacer) / stripSQLComments / scanSQLFeatures and a "
                 "reference lexer SqlLex. Proved for ALL inputs: C15_mask_partition (masker segments partition the "
                 "input), C15_strip_outside (stripSQLComments copies every byte outside ITS comment spans unchanged, "
-                "one space per block span). The three clauses of the property are still FALSE of the code on 9 "
+                "one space per block span). The three clauses of the property are still FALSE of the code on 7 "
                 "confirmed classes (one Lean witness theorem and one harness monitor each) and are proved on "
                 "explicit decidable classes: C15_agree_partial (kClassM s = 0: the masker's segmentation — literals, "
                 "quoted identifiers and the comments it copies through — IS SqlLex's; excluded: `$`/`e'` decided by "
-                "the previous byte, `--` comment ended by CR), C15_strip_agree_partial (kClassS t = 0: stripper "
-                "comment spans = SqlLex's on literal-free text; excluded: CR, nesting, one byte after a block "
-                "comment), C15_roundtrip_partial (kClassP s = 0: no STR_/IDENT_ fragment OUTSIDE literals and quoted "
+                "the previous byte), C15_strip_agree_partial (kClassS t = 0: stripper "
+                "comment spans = SqlLex's on literal-free text; excluded: `--` ended by CR, nesting), "
+                "C15_roundtrip_partial (kClassP s = 0: no STR_/IDENT_ fragment OUTSIDE literals and quoted "
                 "identifiers ⇒ unmask(mask s) = s, quoted identifiers with exact-match de-duplication and literals "
                 "whose content spells a placeholder included). Only VALIDATED, not proved: the composition "
                 "mask-then-strip on one string (monitored on every generated string) and SqlLex = DuckDB's lexer "
